@@ -43,6 +43,12 @@ type Rec struct {
 
 // Backend is one real world plus the bookkeeping to address it by model serials.
 type Backend struct {
+	resA      ecs.Resource[ResA] // typed resource handles, kept for the life of the backend
+	resB      ecs.Resource[ResB]
+	resC      ecs.Resource[ResC]
+	resD      ecs.Resource[ResD]
+	resInit   [4]bool
+	resAsk    [4]int
 	inReenter bool // a callback is changing the world itself
 	Name      string
 	Pol       Policy
@@ -244,6 +250,23 @@ func (b *Backend) rels(list []int, rs []RelSpec) []RelArg {
 }
 
 func (b *Backend) urels(rs []RelSpec) []ecs.Relation {
+	// type-based relations carry no world-specific ID: equal argument lists share one caller-kept slice (see buildRels)
+	key := ""
+	for _, r := range rs {
+		if r.S != 1 {
+			key = ""
+			break
+		}
+		key += fmt.Sprint("u", r.C, b.handle(r.T), ";")
+	}
+	if key != "" {
+		relCacheMu.Lock()
+		cached, ok := relCache[key]
+		relCacheMu.Unlock()
+		if ok {
+			return cached
+		}
+	}
 	out := make([]ecs.Relation, len(rs))
 	for i, r := range rs {
 		if r.S == 1 {
@@ -251,6 +274,11 @@ func (b *Backend) urels(rs []RelSpec) []ecs.Relation {
 		} else {
 			out[i] = ecs.RelID(b.IDs[r.C], b.handle(r.T))
 		}
+	}
+	if key != "" {
+		relCacheMu.Lock()
+		relCache[key] = out
+		relCacheMu.Unlock()
 	}
 	return out
 }
